@@ -4,6 +4,8 @@ import TempestVerif.Gen.Tables
 import TempestVerif.Gen.Constants
 import TempestVerif.Lemmas.ScReal
 import TempestVerif.Props.C07
+import TempestVerif.Props.C06
+import TempestVerif.Props.C20
 import Mathlib.Tactic
 /-
   C12 — run() postconditions and the posterior()/evidence() contract.
@@ -229,6 +231,305 @@ theorem C12_posterior_aligned_gen
     (∃ m, SameLen r m) ∧ ∀ k, k < r.x.length → ∃ i, RowOf r k a i :=
   C12_posterior_aligned C12_gather_tables_complete.1 C12_gather_tables_complete.2 trimFn resFn uniform htrim hunif o ha h
 
+
+/-! ### run(): the guard with the ESS computed from the stored history, on a concrete state -/
+
+/-- for a `β` that a double in `[1/2, 2]` can hold (an integer multiple of 2^-53) — or any `β < 1/2` — the exit test
+    against the double nearest to 1e-4 decides exactly `1 − β < 1e-4`: no multiple of 2^-53 lies between the two -/
+theorem C12_tol_exact_for_doubles (beta : ℝ) (h : beta < 1 / 2 ∨ ∃ m : ℤ, beta = (m : ℝ) / 2 ^ 53) :
+    1 - beta < termTol ↔ 1 - beta < 1e-4 := by
+  rcases h with h | ⟨m, rfl⟩
+  · have := termTol_le
+    constructor <;> intro h' <;> exfalso <;> linarith
+  · unfold termTol
+    rw [C12_term_tol.1, C12_term_tol.2]
+    have e : (1 : ℝ) - (m : ℝ) / 2 ^ 53 = ((2 ^ 53 - m : ℤ) : ℝ) / 2 ^ 53 := by
+      push_cast; rw [sub_div]; norm_num
+    rw [e]
+    generalize (2 ^ 53 - m : ℤ) = k
+    have h1 : ((k : ℝ) / 2 ^ 53 < ((7378697629483821 : ℤ) : ℝ) / ((73786976294838206464 : ℕ) : ℝ)) ↔ k * 8192 < 7378697629483821 := by
+      rw [div_lt_div_iff₀ (by positivity) (by positivity)]
+      have : ((73786976294838206464 : ℕ) : ℝ) = 8192 * 2 ^ 53 := by norm_num
+      rw [this, ← mul_assoc, mul_lt_mul_iff_of_pos_right (by positivity)]
+      exact_mod_cast Iff.rfl
+    have h2 : ((k : ℝ) / 2 ^ 53 < 1e-4) ↔ k * 10000 < 9007199254740992 := by
+      rw [div_lt_iff₀ (by positivity)]
+      have : (1e-4 : ℝ) * 2 ^ 53 = 9007199254740992 / 10000 := by norm_num
+      rw [this, lt_div_iff₀ (by positivity)]
+      exact_mod_cast Iff.rfl
+    rw [h1, h2]
+    omega
+
+/-- positivity facts of `exp(logw − max)` -/
+theorem expShift_pos (x : ℝ) (xs : List ℝ) :
+    (∀ y ∈ expShift x xs, 0 < y) ∧ 0 < (expShift x xs).sum ∧ (expShift x xs).length = xs.length + 1 := by
+  have hp : ∀ y ∈ expShift x xs, 0 < y := by
+    intro y hy
+    simp only [expShift, List.mem_map] at hy
+    obtain ⟨l, _, rfl⟩ := hy
+    exact Real.exp_pos _
+  refine ⟨hp, ?_, by simp [expShift]⟩
+  have h0 : expShift x xs = Real.exp (x - Model.Ess.maxOf x xs) :: xs.map (fun l => Real.exp (l - Model.Ess.maxOf x xs)) := by
+    simp [expShift]
+  rw [h0, List.sum_cons]
+  have : 0 ≤ (xs.map (fun l => Real.exp (l - Model.Ess.maxOf x xs))).sum :=
+    List.sum_nonneg (fun y hy => by
+      obtain ⟨l, _, rfl⟩ := List.mem_map.mp hy; exact (Real.exp_pos _).le)
+  have := Real.exp_pos (x - Model.Ess.maxOf x xs)
+  linarith
+
+/-- the untrimmed posterior weights: defined for a non-empty history, one per stored particle, non-negative, summing to one -/
+theorem weights0_facts (logw : List ℝ) (hne : logw ≠ []) :
+    ∃ w0, weights0 logw = some w0 ∧ w0.length = logw.length ∧ (∀ y ∈ w0, 0 ≤ y) ∧ w0.sum = 1 := by
+  cases logw with
+  | nil => exact absurd rfl hne
+  | cons x xs =>
+    obtain ⟨hp, hs, hl⟩ := expShift_pos x xs
+    obtain ⟨h1, h2, _, _⟩ := Props.C20.wn_facts (expShift x xs) (fun y hy => (hp y hy).le) hs
+    refine ⟨_, rfl, ?_, h2, h1⟩
+    rw [Props.C20.normalise_def]; simp [hl]
+
+/-- the ESS the loop guard tests (of the un-normalised `exp(logw − max)`) IS the ESS of the weights `posterior()`
+    returns without trimming -/
+theorem C12_guard_ess_is_posterior_ess (x : ℝ) (xs : List ℝ) :
+    Model.Ess.ess (Model.Ess.normalise (expShift x xs)) = Model.Ess.ess (expShift x xs) := by
+  obtain ⟨_, hs, _⟩ := expShift_pos x xs
+  have : Model.Ess.normalise (expShift x xs) = (expShift x xs).map (fun y => (1 / (expShift x xs).sum) * y) := by
+    rw [Props.C20.normalise_def]
+    apply List.map_congr_left
+    intro y _; ring
+  rw [this]
+  exact Props.C20.C20_ess_scale_invariant _ (by positivity) _
+
+/-- C12 (run), concrete: on the state record (history, β, logz) with the guard computed from the stored history as the
+    code does, whenever `run` returns: 1 − β is below the double 1e-4, the history is non-empty, the ESS of the posterior
+    weights over the whole history (the vector `posterior(trim_importance_weights=False)` returns) is at least `n_total`,
+    and the stored evidence is `Z(1)` of that very history.  No frame hypotheses: `set_current("logz")` is the record update. -/
+theorem C12_run_post_concrete {H : Type} (nTotal : ℝ) (logw1 : H → List ℝ) (z1 : H → ℝ)
+    (iter : RunState H ℝ → RunState H ℝ) (fuel : Nat) (s0 sf : RunState H ℝ)
+    (h : runConcrete termTol nTotal logw1 z1 iter fuel s0 = some sf) :
+    1 - sf.beta < termTol ∧
+    (∃ w0, weights0 (logw1 sf.hist) = some w0 ∧ w0.length = (logw1 sf.hist).length ∧ nTotal ≤ Model.Ess.ess w0 ∧
+        1 ≤ Model.Ess.ess w0 ∧ Model.Ess.ess w0 ≤ w0.length) ∧
+    sf.logz = z1 sf.hist ∧ ∃ k, k ≤ fuel ∧ sf.hist = (iter^[k] s0).hist := by
+  simp only [runConcrete, runSampling, Option.map_eq_some_iff] at h
+  obtain ⟨s', hl, rfl⟩ := h
+  have hp := loop_post _ _ _ _ _ hl
+  obtain ⟨k, hk, hit⟩ := loop_is_iterate _ _ _ _ _ hl
+  show 1 - s'.beta < termTol ∧
+    (∃ w0, weights0 (logw1 s'.hist) = some w0 ∧ w0.length = (logw1 s'.hist).length ∧ nTotal ≤ Model.Ess.ess w0 ∧
+        1 ≤ Model.Ess.ess w0 ∧ Model.Ess.ess w0 ≤ w0.length) ∧
+    z1 s'.hist = z1 s'.hist ∧ ∃ k, k ≤ fuel ∧ s'.hist = (iter^[k] s0).hist
+  cases hw : logw1 s'.hist with
+  | nil => rw [hw] at hp; simp [notTermination] at hp
+  | cons x xs =>
+    rw [hw] at hp
+    simp only [notTermination] at hp
+    rw [notTerm_false_iff] at hp
+    obtain ⟨w0, hw0, hlen, hnn, hsum⟩ := weights0_facts (x :: xs) (by simp)
+    have hw0' : w0 = Model.Ess.normalise (expShift x xs) := by
+      simp only [weights0, Option.some.injEq] at hw0; exact hw0.symm
+    have hb := Props.C20.C20_ess_bounds w0 hnn (by rw [hsum]; exact one_pos)
+    refine ⟨hp.1, ⟨w0, hw0, hlen, ?_, hb.1, hb.2⟩, rfl, k, hk, by rw [hit]⟩
+    rw [hw0', C12_guard_ess_is_posterior_ess]
+    exact hp.2
+
+/-! ### posterior(): the whole routine with the modelled trimming (C20) and systematic resampling (C06) -/
+
+theorem gather?_some {σ : Type} (xs : List σ) (idx : List Nat) (h : ∀ i ∈ idx, i < xs.length) :
+    ∃ ys, gather? xs idx = some ys := by
+  induction idx with
+  | nil => exact ⟨[], rfl⟩
+  | cons i is ih =>
+    obtain ⟨ys, hys⟩ := ih (fun j hj => h j (List.mem_cons_of_mem _ hj))
+    have hi := h i List.mem_cons_self
+    exact ⟨xs[i] :: ys, by simp [gather?, hys, List.getElem?_eq_getElem hi]⟩
+
+/-- fancy indexing with in-range indices never raises, whatever the field table -/
+theorem gatherArrs_some (fields : List String) (idx : List Nat) (a : Arrs X L B W α) (n : Nat)
+    (ha : SameLen a n) (h : ∀ i ∈ idx, i < n) : ∃ r, gatherArrs fields idx a = some r := by
+  obtain ⟨h1, h2, h3, h4, _⟩ := ha
+  obtain ⟨x, hx⟩ := gather?_some a.x idx (by rw [h1]; exact h)
+  obtain ⟨l, hl⟩ := gather?_some a.l idx (by rw [h2]; exact h)
+  obtain ⟨b, hb⟩ := gather?_some a.b idx (by rw [h3]; exact h)
+  obtain ⟨lw, hlw⟩ := gather?_some a.lw idx (by rw [h4]; exact h)
+  have e1 : ∃ v, (if fields.contains "x" then gather? a.x idx else some a.x) = some v := by
+    split; exacts [⟨x, hx⟩, ⟨_, rfl⟩]
+  have e2 : ∃ v, (if fields.contains "logl" then gather? a.l idx else some a.l) = some v := by
+    split; exacts [⟨l, hl⟩, ⟨_, rfl⟩]
+  have e3 : ∃ v, (if fields.contains "blobs" then gather? a.b idx else some a.b) = some v := by
+    split; exacts [⟨b, hb⟩, ⟨_, rfl⟩]
+  have e4 : ∃ v, (if fields.contains "logw" then gather? a.lw idx else some a.lw) = some v := by
+    split; exacts [⟨lw, hlw⟩, ⟨_, rfl⟩]
+  obtain ⟨v1, e1⟩ := e1
+  obtain ⟨v2, e2⟩ := e2
+  obtain ⟨v3, e3⟩ := e3
+  obtain ⟨v4, e4⟩ := e4
+  unfold gatherArrs
+  rw [e1, e2, e3, e4]
+  exact ⟨_, rfl⟩
+
+/-- what the modelled `trim_weights(np.arange(n), w, e, bins)` returns on normalised weights: it does not raise, returns
+    as many weights as indices, strictly increasing in-range indices (no particle twice, history order kept), and
+    non-negative weights summing to one -/
+theorem trim_range_facts (w : List ℝ) (h0 : ∀ y ∈ w, 0 ≤ y) (hs : w.sum = 1) (e : ℝ) (bins : Nat) (hb : 0 < bins) :
+    ∃ idx w', Model.Trim.trim (List.range w.length) w e bins = some (idx, w') ∧ idx.length = w'.length ∧
+      (∀ i ∈ idx, i < w.length) ∧ idx.Pairwise (· < ·) ∧ (∀ y ∈ w', 0 ≤ y) ∧ w'.sum = 1 := by
+  have hpos : 0 < w.sum := by rw [hs]; exact one_pos
+  obtain ⟨⟨idx, w'⟩, hr⟩ := Props.C20.C20_trim_terminates_any (List.range w.length) w e bins h0 hpos hb
+  have hsum := Props.C20.C20_trim_normalised _ w e bins h0 hpos idx w' hr
+  obtain ⟨θ, j, _, _, hm⟩ := Props.C20.C20_trim_upper_set _ w e bins idx w' hr
+  obtain ⟨hi, hw', _⟩ := hm
+  have hn : Model.Ess.normalise w = w := Props.C20.normalise_of_sum_one w hs
+  rw [hn] at hi hw'
+  have hsub : idx.Sublist (List.range w.length) := by rw [hi]; exact Props.C20.filterMask_sublist _ _
+  refine ⟨idx, w', hr, ?_, ?_, ?_, ?_, hsum⟩
+  · rw [hi, hw', Props.C20.normalise_def, List.length_map]
+    exact Props.C20.filterMask_length_eq _ _ _ (by simp)
+  · intro i hi'; exact List.mem_range.mp (hsub.subset hi')
+  · exact List.Pairwise.sublist hsub List.pairwise_lt_range
+  · intro y hy
+    rw [hw', Props.C20.normalise_def] at hy
+    obtain ⟨z, hz, rfl⟩ := List.mem_map.mp hy
+    have hz0 : ∀ v ∈ Model.Trim.filterMask w (w.map fun x => Sc.le θ x), 0 ≤ v :=
+      fun v hv => h0 v ((Props.C20.filterMask_sublist _ _).subset hv)
+    exact div_nonneg (hz0 z hz) (List.sum_nonneg hz0)
+
+/-- the modelled `systematic_resample(len(w), w)` on a non-empty weight vector: does not raise, `len(w)` in-range indices -/
+theorem syst_facts (w : List ℝ) (hne : w ≠ []) (u0 : ℝ) :
+    ∃ idx, Model.Resample.systematic w.length w u0 = some idx ∧ idx.length = w.length ∧ ∀ i ∈ idx, i < w.length := by
+  obtain ⟨c0, t, _, h2⟩ := Props.C06.systematicWith_some (Sc.sum w) w.length w u0 hne
+  exact ⟨_, h2, Props.C06.C06_syst_length _ _ _ _ _ h2, Props.C06.C06_syst_range _ _ _ _ _ h2⟩
+
+theorem uniformW_facts (n : Nat) (hn : 0 < n) :
+    (uniformW n : List ℝ) = List.replicate n (1 / (n : ℝ)) ∧ (uniformW n : List ℝ).length = n ∧
+      (∀ y ∈ (uniformW n : List ℝ), 0 ≤ y) ∧ (uniformW n : List ℝ).sum = 1 := by
+  have e : (uniformW n : List ℝ) = List.replicate n (1 / (n : ℝ)) := by simp [uniformW]
+  refine ⟨e, by simp [uniformW], ?_, by rw [e]; exact uniform_sum_one n hn⟩
+  intro y hy
+  rw [e] at hy
+  rw [List.eq_of_mem_replicate hy]
+  positivity
+
+/-- `body` with in-range index vectors never raises, and its weights are: uniform after resampling, else the trimmed
+    weights, else the input weights -/
+theorem body_some {trimFields resFields : List String} (ht : AllPost trimFields)
+    (t : List Nat × List α) (ridx : List Nat) (uniform : Nat → List α) (o : Opts)
+    (a : Arrs X L B W α) (n : Nat) (ha : SameLen a n)
+    (h1 : o.trim = true → t.2.length = t.1.length ∧ ∀ i ∈ t.1, i < n)
+    (h2 : o.resample = true → ∀ i ∈ ridx, i < (if o.trim then t.1.length else n)) :
+    ∃ r, body trimFields resFields (fun _ => t) (fun _ => ridx) uniform o a = some r ∧
+      r.w = if o.resample then uniform ridx.length else if o.trim then t.2 else a.w := by
+  unfold body
+  by_cases hto : o.trim = true
+  · obtain ⟨hl, hr1⟩ := h1 hto
+    obtain ⟨g1, hg1⟩ := gatherArrs_some trimFields t.1 a n ha hr1
+    obtain ⟨lx, ll, lb, llw, _, _⟩ := gatherArrs_rows ht hg1
+    have ha1 : SameLen ({ g1 with w := t.2 } : Arrs X L B W α) t.1.length := ⟨lx, ll, lb, llw, hl⟩
+    by_cases hro : o.resample = true
+    · have hr2 := h2 hro
+      simp only [hto, if_true] at hr2
+      obtain ⟨g2, hg2⟩ := gatherArrs_some resFields ridx _ _ ha1 hr2
+      exact ⟨{ g2 with w := uniform ridx.length }, by simp [hto, hro, hg1, hg2], by simp [hro]⟩
+    · exact ⟨{ g1 with w := t.2 }, by simp [hto, hro, hg1], by simp [hto, hro]⟩
+  · by_cases hro : o.resample = true
+    · have hr2 := h2 hro
+      simp only [hto, Bool.false_eq_true, if_false] at hr2
+      obtain ⟨g2, hg2⟩ := gatherArrs_some resFields ridx a n ha hr2
+      exact ⟨{ g2 with w := uniform ridx.length }, by simp [hto, hro, hg2], by simp [hro]⟩
+    · exact ⟨a, by simp [hto, hro], by simp [hto, hro]⟩
+
+/-- **C12 (posterior), the whole routine.**  On any non-empty stored history (arrays of one length `n`, `logw` the vector
+    of `compute_logw_and_logz(1.0)`), for EVERY combination of `resample` / `trim_importance_weights` (the two `return_*`
+    flags only select among the arrays, `C12_return_tuples`), every real `ess_trim` (also > 1: the loop stops at the bottom of
+    the grid, /repo 8ceb8ba), every `bins_trim ≥ 1` and every value
+    `u0` of the resampling offset, `compute_posterior` with the modelled `trim_weights` (C20) and `systematic_resample`
+    (C06): does not raise; returns arrays of ONE positive length `m`; every returned row is — in x, logl, blobs and logw
+    alike — one and the same stored particle; the weights are non-negative and sum to one; with resampling they are
+    exactly `1/m` each. -/
+theorem C12_posterior_contract {trimFields resFields : List String}
+    (ht : AllPost trimFields) (hr : AllPost resFields)
+    (e : ℝ) (bins : Nat) (hb : 0 < bins) (u0 : ℝ) (o : Opts)
+    (a : Arrs X L B ℝ ℝ) (hne : a.lw ≠ [])
+    (hx : a.x.length = a.lw.length) (hl : a.l.length = a.lw.length) (hbl : a.b.length = a.lw.length) :
+    ∃ r, posterior trimFields resFields e bins u0 o a = some r ∧
+      ∃ m, 0 < m ∧ SameLen r m ∧ (∀ k, k < m → ∃ i, i < a.lw.length ∧ RowOf r k a i) ∧
+        (∀ y ∈ r.w, 0 ≤ y) ∧ r.w.sum = 1 ∧ (o.resample = true → r.w = List.replicate m (1 / (m : ℝ))) := by
+  obtain ⟨w0, hw0, hlen, hnn, hsum⟩ := weights0_facts a.lw hne
+  have hn0 : 0 < a.lw.length := List.length_pos_iff.mpr hne
+  have ha0 : SameLen ({ a with w := w0 } : Arrs X L B ℝ ℝ) a.lw.length := ⟨hx, hl, hbl, rfl, hlen⟩
+  -- the trimming stage
+  obtain ⟨t, htdef, ht1, htw⟩ : ∃ t : List Nat × List ℝ,
+      (if o.trim then Model.Trim.trim (List.range w0.length) w0 e bins else some ([], [])) = some t ∧
+      t.2.length = t.1.length ∧
+      (o.trim = true → (∀ i ∈ t.1, i < a.lw.length) ∧ (∀ y ∈ t.2, 0 ≤ y) ∧ t.2.sum = 1) := by
+    by_cases hto : o.trim = true
+    · obtain ⟨tidx, tw, htr, htl, htrange, _, htnn, htsum⟩ := trim_range_facts w0 hnn hsum e bins hb
+      exact ⟨(tidx, tw), by simp [hto, htr], htl.symm, fun _ => ⟨fun i hi => hlen ▸ htrange i hi, htnn, htsum⟩⟩
+    · exact ⟨([], []), by simp [hto], rfl, fun h => absurd h hto⟩
+  -- the weights entering the resampling stage
+  have hw1 : (∀ y ∈ (if o.trim then t.2 else w0), 0 ≤ y) ∧ (if o.trim then t.2 else w0).sum = 1 ∧
+      (if o.trim then t.2 else w0).length = (if o.trim then t.1.length else a.lw.length) := by
+    by_cases hto : o.trim = true
+    · simp only [hto, if_true]; exact ⟨(htw hto).2.1, (htw hto).2.2, ht1⟩
+    · simp only [hto, Bool.false_eq_true, if_false]; exact ⟨hnn, hsum, hlen⟩
+  have hw1ne : (if o.trim then t.2 else w0) ≠ [] := by
+    intro h; have := hw1.2.1; rw [h] at this; simp at this
+  -- the resampling stage
+  obtain ⟨ridx, hrdef, hr1⟩ : ∃ ridx : List Nat,
+      (if o.resample then Model.Resample.systematic (if o.trim then t.2 else w0).length (if o.trim then t.2 else w0) u0
+        else some []) = some ridx ∧
+      (o.resample = true → ridx.length = (if o.trim then t.1.length else a.lw.length) ∧
+        ∀ i ∈ ridx, i < (if o.trim then t.1.length else a.lw.length)) := by
+    by_cases hro : o.resample = true
+    · obtain ⟨ridx, hrs, hrl, hrr⟩ := syst_facts _ hw1ne u0
+      refine ⟨ridx, by simp [hro, hrs], fun _ => ?_⟩
+      rw [← hw1.2.2]; exact ⟨hrl, hrr⟩
+    · exact ⟨[], by simp [hro], fun h => absurd h hro⟩
+  obtain ⟨r, hbody, hrw⟩ := body_some (resFields := resFields) ht t ridx uniformW o _ _ ha0
+    (fun h => ⟨ht1, (htw h).1⟩) (fun h => (hr1 h).2)
+  have hpost : posterior trimFields resFields e bins u0 o a = some r := by
+    unfold posterior
+    rw [hw0]; simp only [Option.bind_some]
+    rw [htdef]; simp only [Option.bind_some]
+    rw [hrdef]; simp only [Option.bind_some]
+    exact hbody
+  obtain ⟨⟨m, hm⟩, hrows⟩ := C12_posterior_aligned ht hr (fun _ => t) (fun _ => ridx) uniformW (fun _ => ht1)
+    (fun n => by simp [uniformW]) o ha0 hbody
+  -- the common length is positive
+  have hmw : r.w.length = m := hm.2.2.2.2
+  have hmpos_and : 0 < m ∧ (∀ y ∈ r.w, 0 ≤ y) ∧ r.w.sum = 1 ∧ (o.resample = true → r.w = List.replicate m (1 / (m : ℝ))) := by
+    by_cases hro : o.resample = true
+    · simp only [hro, if_true] at hrw
+      have hlen' : ridx.length = m := by rw [← hmw, hrw]; simp [uniformW]
+      have hpos : 0 < ridx.length := by
+        rw [(hr1 hro).1, ← hw1.2.2]; exact List.length_pos_iff.mpr hw1ne
+      obtain ⟨ue, _, unn, usum⟩ := uniformW_facts ridx.length hpos
+      rw [hrw]
+      exact ⟨hlen' ▸ hpos, unn, usum, fun _ => by rw [ue, hlen']⟩
+    · have hrw' : r.w = if o.trim then t.2 else w0 := by simpa [hro] using hrw
+      rw [hrw']
+      refine ⟨?_, hw1.1, hw1.2.1, fun h => absurd h hro⟩
+      rw [← hmw, hrw']; exact List.length_pos_iff.mpr hw1ne
+  refine ⟨r, hpost, m, hmpos_and.1, hm, ?_, hmpos_and.2⟩
+  intro k hk
+  obtain ⟨i, hi⟩ := hrows k (by rw [hm.1]; exact hk)
+  refine ⟨i, ?_, hi⟩
+  -- the row exists in `r`, hence the source index is in range
+  by_contra hcon
+  have h1 : r.lw[k]? = none := by rw [hi.2.2.2]; exact List.getElem?_eq_none (by simpa using hcon)
+  rw [List.getElem?_eq_getElem (by rw [hm.2.2.2.1]; exact hk)] at h1
+  cases h1
+
+/-- the contract instantiated with the tables regenerated from `compute_posterior` -/
+theorem C12_posterior_contract_gen (e : ℝ) (bins : Nat) (hb : 0 < bins) (u0 : ℝ) (o : Opts)
+    (a : Arrs X L B ℝ ℝ) (hne : a.lw ≠ [])
+    (hx : a.x.length = a.lw.length) (hl : a.l.length = a.lw.length) (hbl : a.b.length = a.lw.length) :
+    ∃ r, posterior Gen.Tables.posteriorTrimGather Gen.Tables.posteriorResampleGather e bins u0 o a = some r ∧
+      ∃ m, 0 < m ∧ SameLen r m ∧ (∀ k, k < m → ∃ i, i < a.lw.length ∧ RowOf r k a i) ∧
+        (∀ y ∈ r.w, 0 ≤ y) ∧ r.w.sum = 1 ∧ (o.resample = true → r.w = List.replicate m (1 / (m : ℝ))) :=
+  C12_posterior_contract C12_gather_tables_complete.1 C12_gather_tables_complete.2 e bins hb u0 o a hne hx hl hbl
+
 /-! ### non-vacuity -/
 example :
     (body Gen.Tables.posteriorTrimGather Gen.Tables.posteriorResampleGather
@@ -239,5 +540,34 @@ example :
       = some ([12, 12, 13], [22, 22, 23], [32, 32, 33], [42, 42, 43], [7, 7, 7]) := by decide
 
 example : loop (fun s : Nat => decide (s < 3)) (· + 1) 10 0 = some 3 := by decide
+
+/-- non-vacuity of `C12_tol_exact_for_doubles`: the largest double `β < 1` side: `1 − β = 900719925474·2^-53 < 1e-4` -/
+example : (1 : ℝ) - ((9007199254740992 - 900719925474 : ℤ) : ℝ) / 2 ^ 53 < termTol :=
+  (C12_tol_exact_for_doubles _ (Or.inr ⟨_, rfl⟩)).mpr (by norm_num)
+/-- … and the next multiple of 2^-53 is on the other side of BOTH thresholds -/
+example : ¬ ((1 : ℝ) - ((9007199254740992 - 900719925475 : ℤ) : ℝ) / 2 ^ 53 < termTol) := by
+  rw [C12_tol_exact_for_doubles _ (Or.inr ⟨_, rfl⟩)]; norm_num
+
+/-- non-vacuity of `C12_run_post_concrete`: a run that starts on an empty history (guard: continue), commits one
+    particle with β = 1 and then stops; the hypotheses of the theorem are met by this run -/
+example : ∃ sf, runConcrete termTol (1 : ℝ) (fun h : List ℝ => h) (fun h => h.sum)
+    (fun s => ⟨[0], 1, s.logz⟩) 1 ⟨[], 0, 5⟩ = some sf ∧ sf.hist = [0] ∧ sf.logz = 0 := by
+  refine ⟨⟨[0], 1, 0⟩, ?_, rfl, rfl⟩
+  have hs : notTermination termTol (1 : ℝ) ([0] : List ℝ) 1 = false := by
+    simp only [notTermination]
+    rw [notTerm_false_iff]
+    refine ⟨by unfold termTol; rw [C12_term_tol.1, C12_term_tol.2]; norm_num, ?_⟩
+    rw [Props.C20.ess_def]; simp [Model.Ess.maxOf]
+  have hs0 : notTermination termTol (0 : ℝ) ([] : List ℝ) 1 = true := rfl
+  simp only [runConcrete, runSampling, loop, hs0, hs, if_true, RunState.setLogz]
+  simp
+
+/-- non-vacuity of `C12_posterior_contract_gen`: three stored particles, trimming and resampling on -/
+example : ∃ r, posterior Gen.Tables.posteriorTrimGather Gen.Tables.posteriorResampleGather (0.99 : ℝ) 1000 0.5
+      ⟨true, true, true, true⟩ (⟨[10, 11, 12], [20, 21, 22], [30, 31, 32], [-1, 0, -2], []⟩ : Arrs Nat Nat Nat ℝ ℝ) = some r ∧
+      ∃ m, 0 < m ∧ SameLen r m ∧ r.w = List.replicate m (1 / (m : ℝ)) := by
+  obtain ⟨r, h, m, hm, hl, _, _, _, hu⟩ := C12_posterior_contract_gen (X := Nat) (L := Nat) (B := Nat) (0.99 : ℝ) 1000
+    (by norm_num) 0.5 ⟨true, true, true, true⟩ ⟨[10, 11, 12], [20, 21, 22], [30, 31, 32], [-1, 0, -2], []⟩ (by simp) rfl rfl rfl
+  exact ⟨r, h, m, hm, hl, hu rfl⟩
 
 end Props.C12
